@@ -33,7 +33,11 @@ Bad(e) ==
          \cup T(~e.err /\ ValidSeptets(e.s) /\ e.out # DecSeptets(e.s), "C08.alphabet.dec")
     [] e.ev = "Valid" ->
          T(e.inv # Invalids(e.text) \/ e.isvalid # Representable(e.text), "C08.validator")
-    [] e.ev = "ValidBuf" -> T((e.inv = <<>>) # ValidSeptets(e.s), "C08.validator")
+    [] e.ev = "ValidBuf" ->
+         \* refused exactly when some septet is refused; what it names are octets of the buffer, the octets above 0x7F among them
+         T((e.inv = <<>>) # ValidSeptets(e.s), "C08.validator")
+         \cup T(~({e.inv[i] : i \in 1..Len(e.inv)} \subseteq {e.s[i] : i \in 1..Len(e.s)}), "C08.validator.names_foreign_octet")
+         \cup T(~({e.s[i] : i \in {j \in 1..Len(e.s) : e.s[j] > 127}} \subseteq {e.inv[i] : i \in 1..Len(e.inv)}), "C08.validator.misses_octet")
     [] e.ev = "EncPacked" ->
          T(e.err # ~Representable(e.text), "C08.packed.enc")
          \cup T(~e.err /\ Representable(e.text) /\ e.out # Pack(EncSeptets(e.text)), "C08.packed.enc")
